@@ -106,6 +106,55 @@ PROPS = {
                      'the build has overflow-checks on: arithmetic overflow inside the subject shows as a panic (the wrapping flavour of the same defects is not '
                      'run)'],
      'min_outcomes': 8},
+    "C08": {'level': 'exploration',
+     'technique': 'bounded exhaustive enumeration of byte strings (all token strings up to a length bound, plus all <=k-edit variants of well-formed skeletons) x '
+                  'a 63-type serde target catalogue, each call executed on the real decoder in an isolated child process; oracle = totality + UTF-8 re-validation '
+                  '+ pointer-range check of every borrowed slice',
+     'engine': 'vmc',
+     'level_text': 'Bounded exhaustive exploration: for each network-facing decoder (serde_urlencoded::from_bytes, Request.query parse/iter, '
+                   'serde_cookie::from_str, util::iter_cookies, Set-Cookie parsing via ResponseHeaders::SetCookie, percent_decode(_utf8), '
+                   'FromParam::from_raw_param, Path::str/deref/fmt/params, serde_multipart::from_bytes, serde_utf8::from_str) every string of at most N tokens '
+                   'over a 6-12 token alphabet and every variant with at most k token edits of each well-formed skeleton is decoded into every type of a 63-type '
+                   'catalogue covering all serde entry points. Exhaustive inside those bounds, nothing sampled.',
+     'level_note': "Trusted: the harness's pointer-range / UTF-8 checks, fork-based isolation (a call that kills its process is attributed exactly through a "
+                   'shared page), and the tolerant input classifiers used only for class ids. Undefined behaviour that neither panics, aborts, trips a debug '
+                   'assertion nor shows in a yielded value is not observed (no Miri pass). Inputs outside the alphabets and longer than the bounds are not '
+                   'covered.',
+     'jobs': {'quick': 16, 'thorough': 16},
+     'wall_cap_s': {'quick': 35, 'thorough': 660},
+     'min_outcomes': 8,
+     'assumptions': ['features rt_tokio,sse,openapi on x86-64 Linux; other runtimes are not built',
+                     'the harness build uses opt-level 2 with debug-assertions and overflow-checks on (profile `verif`), hooks enabled by --cfg ohkami_verif',
+                     'values outside the stated alphabets / bounds are not covered (DESIGN.md section 9)',
+                     'serde_cookie::from_str, serde_utf8::from_str, util::iter_cookies and Set-Cookie parsing take &str: raw 0xFF cannot be passed, its place in '
+                     'those alphabets is taken by a two-byte non-ASCII character (percent-escapes still produce 0xFF after decoding)',
+                     'SetCookie::from_raw is crate-private: Set-Cookie texts are injected through the public builder, once as the cookie name and once as the Path '
+                     'directive (raw, unescaped positions)',
+                     'arithmetic symptoms are those of a build with overflow-checks and debug-assertions on (panic); the wrapping behaviour of a release build is '
+                     'not re-run',
+                     'a call that makes no progress for 20 s is reported as a hang (decoders take microseconds)']},
+    "C09": {'level': 'exploration',
+     'technique': 'bounded exhaustive enumeration of values (full product of finite field domains over 33 shapes) and of well-formed key=value texts (all '
+                  'sequences of <=3 pairs over keys x percent-escaped values), compared with an independent split-and-percent-decode reference and with a '
+                  'reference encoder (three routes: crate->crate, crate encoder->reference decoder, reference encoder->crate decoder)',
+     'engine': 'vmc',
+     'level_text': "Bounded exhaustive exploration: every value of each shape's finite domain (booleans, integers at MIN/-1/0/1/MAX, 9 floats compared bitwise, "
+                   'chars and all strings of length <=3 over 10 characters including reserved, non-ASCII and astral ones, options, unit enums, newtypes, sequences '
+                   'of length 0..3, string maps) is serialized with serde_urlencoded::to_string and read back; every text of at most 3 (quick) / 4 (thorough) '
+                   'pairs over 4 keys x 9 values is decoded into 6 targets, through from_bytes, through Request.query.parse and through Request.query.iter, and '
+                   'compared with the reference.',
+     'level_note': 'Trusted: the 120-line reference codec in harness/src/refmodel/urlenc.rs (self-tested on RFC 3986 examples) and Debug-format equality of values '
+                   '(bitwise for floats except NaN payloads). Texts with malformed escapes, duplicate known keys, and `k=` into Option fields are counted '
+                   'ambiguous because the statement does not define them.',
+     'jobs': {'quick': 8, 'thorough': 16},
+     'wall_cap_s': {'quick': 35, 'thorough': 600},
+     'min_outcomes': 6,
+     'assumptions': ['features rt_tokio,sse,openapi on x86-64 Linux; other runtimes are not built',
+                     'the harness build uses opt-level 2 with debug-assertions and overflow-checks on (profile `verif`), hooks enabled by --cfg ohkami_verif',
+                     'values outside the stated alphabets / bounds are not covered (DESIGN.md section 9)',
+                     '`+` is a literal character (RFC 3986), not a space (HTML form rules) - the statement names RFC 3986',
+                     'values are compared through their Debug rendering (injective for the types used; floats bitwise except NaN payload)',
+                     'the query string is delivered in a real request line read by Request::read (hook H2 RawConn)']},
     "C10": {'level': 'exploration',
      'technique': 'bounded exhaustive enumeration (model-checking family, no sampling): every form of <=3 parts over a part alphabet x boundary x encoder option '
                   'set x target struct; bodies come from an independent RFC 7578 encoder, are decoded by the real serde_multipart::from_bytes (one family through '
